@@ -7,7 +7,7 @@ the idiom `try: labelfmt.format(...) except IndexError: raise ValueError`, whose
 (`labelfmt_format : Except Err Unit`).
 ABSTRACTS declares the observers of interface objects (formula, graph): name -> ([param types], result, may raise).
 """
-from py2lean_types import (INT, BOOL, STR, RANGE, ERASED, TList, TOpt, TTuple, TObj, TAbs)
+from py2lean_types import (INT, BOOL, STR, RANGE, ERASED, TList, TOpt, TTuple, TObj, TAbs, THet)
 
 VARS = "cnfgen/formula/variables.py"
 
@@ -71,4 +71,10 @@ ITEMS = [
          "__call__": {"params": {"index": TList(TOpt(INT))}, "vararg": "index"},
          "to_index": {"params": {"lit": INT}},
      }},
+    # ---- C04: normalisation of a pseudo-Boolean constraint `[(coeff, lit), …, op, value]`
+    {"file": "cnfgen/formula/baseopb.py", "function": "normalize_opb", "property": "C04",
+     "params": {"constraint": THet(TTuple([INT, INT]), [STR, INT])}},
+    # ---- C03: arithmetic progressions of van der Waerden formulas (a generator: the list of what it yields)
+    {"file": "cnfgen/families/ramsey.py", "function": "_vdw_ap_generator", "property": "C03",
+     "params": {"N": INT, "k": INT}},
 ]
